@@ -136,6 +136,20 @@ func (c *channel) cancelPendingMsgs() {
 	}
 }
 
+// failSentOnOldStream fails the single-reply calls whose requests were written to an earlier
+// stream and are still waiting for their reply. See reconnect.
+func (c *channel) failSentOnOldStream() {
+	c.responseMut.Lock()
+	defer c.responseMut.Unlock()
+	for msgID, router := range c.responseRouters {
+		if router.sent && !router.streaming {
+			// the reply channel has room for one response from each node
+			router.c <- response{nid: c.node.ID(), err: streamDownErr}
+			delete(c.responseRouters, msgID)
+		}
+	}
+}
+
 func (c *channel) routeResponse(msgID uint64, resp response) {
 	c.responseMut.Lock()
 	defer c.responseMut.Unlock()
@@ -440,6 +454,13 @@ func (c *channel) reconnect(maxRetries float64) {
 			// its streamBroken check must never find a nil stream
 			c.gorumsStream = stream
 			c.streamBroken.clear()
+			// Normally the receiver has observed the failure of the old stream and failed the
+			// calls that were pending on it. It does not when the stream failed while it was
+			// between two RecvMsg calls (delivering a reply) and is replaced here before it
+			// looks again: it would go on to read the new stream and those calls would wait
+			// forever. No request is being written while the write lock is held, so every
+			// request marked as sent went to a stream that no longer exists.
+			c.failSentOnOldStream()
 			// The other goroutine (sender or receiver) may be sleeping in its back-off below;
 			// wake it up, so that e.g. replies on the new stream do not wait for its timer.
 			select {
